@@ -372,6 +372,26 @@ func (c *Ctx) checkProxyRelayGate() {
 		c.undecided(rule, "adaptor literal", p.Pos(run.Pos()), fmt.Sprintf("%d stores to dataChannelHandlerWithRelayURL.RelayURL", nLit))
 		return
 	}
+	// pollOffer itself: relay URL = result 2 of the decoder, description = Deserialize(result 0)
+	if po := p.Fn("proxy/lib", "(*SignalingServer).pollOffer"); po != nil {
+		dec := "common/messages.DecodePollResponseWithRelayURL"
+		n := 0
+		for _, r := range returnsOf(po) {
+			if isNilConst(retVal(r, 0)) {
+				continue
+			}
+			n++
+			okURL := isResultOf(retVal(r, 1), 2, dec)
+			okDesc := false
+			if cc, i, okc := callResult(retVal(r, 0)); okc && i == 0 && calleeName(cc) == "common/util.DeserializeSessionDescription" {
+				okDesc = flows(cc.Call.Args[0], func(v ssa.Value) bool { return isResultOf(v, 0, dec) })
+			}
+			c.check(okURL && okDesc, rule, "pollOffer returns the decoded offer together with the decoded relay URL", p.instrPos(r), "", "the relay URL (or the offer) returned by pollOffer is not the corresponding field of the broker's response: the URL validated by runSession is not the one the broker sent with this offer")
+		}
+		if n == 0 {
+			c.undecided(rule, "pollOffer success return", p.Pos(po.Pos()), "none found")
+		}
+	}
 	isRelay := func(v ssa.Value) bool { return isResultOfCall(v, poll, 1) }
 	var parse *ssa.Call
 	for _, ci := range callsTo(run, "net/url.Parse") {
